@@ -485,6 +485,15 @@ Proof. destruct cached, n0; vm_compute; reflexivity. Qed.
 Lemma two_equal_not_NoDup (a : N) : ~ NoDup [a; a].
 Proof. intros H. inv H. apply H2. left. reflexivity. Qed.
 
+Lemma run_indices_dup ths n0 cached sched a :
+  run_indices ths n0 cached sched = Some [a; a] ->
+  exists s, exec ths (init ths n0 cached) sched = Some s /\ ~ NoDup (indices s).
+Proof.
+  unfold run_indices. intros H.
+  destruct (exec ths (init ths n0 cached) sched) as [s|]; [|discriminate].
+  exists s. split; [reflexivity|]. inv H. rewrite H1. apply two_equal_not_NoDup.
+Qed.
+
 (** In the form used by the property file: a reachable state with a duplicate. *)
 Theorem unsafe_without_mutex n0 cached :
   exists sched s,
@@ -492,9 +501,7 @@ Theorem unsafe_without_mutex n0 cached :
     ~ NoDup (indices s).
 Proof.
   exists witness_two_unheld.
-  pose proof (unsafe_two_unheld n0 cached) as H. unfold run_indices in H.
-  destruct (exec _ _ _) as [s|]; [|discriminate]. exists s. split; [reflexivity|].
-  inv H. rewrite H1. apply two_equal_not_NoDup.
+  exact (run_indices_dup _ _ _ _ _ (unsafe_two_unheld n0 cached)).
 Qed.
 
 Theorem unsafe_one_site_without_mutex n0 cached :
@@ -507,11 +514,7 @@ Theorem unsafe_one_site_without_mutex n0 cached :
 Proof.
   split.
   - exists witness_held_then_unheld.
-    pose proof (unsafe_held_then_unheld n0 cached) as H. unfold run_indices in H.
-    destruct (exec _ _ _) as [s|]; [|discriminate]. exists s. split; [reflexivity|].
-    inv H. rewrite H1. apply two_equal_not_NoDup.
+    exact (run_indices_dup _ _ _ _ _ (unsafe_held_then_unheld n0 cached)).
   - exists witness_unheld_then_held.
-    pose proof (unsafe_unheld_then_held n0 cached) as H. unfold run_indices in H.
-    destruct (exec _ _ _) as [s|]; [|discriminate]. exists s. split; [reflexivity|].
-    inv H. rewrite H1. apply two_equal_not_NoDup.
+    exact (run_indices_dup _ _ _ _ _ (unsafe_unheld_then_held n0 cached)).
 Qed.
